@@ -153,25 +153,27 @@ Definition make_svd_non_negative (sq : F -> F) (eps : F) (M U : mat) (Sg : list 
 
 (* ---------- svd_interface: dispatch + post-processing ---------- *)
 Inductive method := MTruncated | MSymeig | MRandomized | MCallable | MUnknown.
-(* svd_fun: the dispatched function, as a function of the matrix it is handed (the harness tapes its answers
-   for the back ends that are not modelled); masks: one imputation step per iteration, then svd_fun again *)
-Fixpoint mask_loop (svd_fun : mat -> triple F) (d2 : nat) (mask : mat) (iters : nat) (M : mat) (t : triple F) : mat * triple F :=
+(* svd_fun k M: the answer of the dispatched function on its k-th call of this run, handed the matrix M
+   (the harness tapes the answers of LAPACK and of the back ends that are not modelled; the index only
+   lets a tape disambiguate calls).  Masks: one imputation step per iteration, then svd_fun again. *)
+Fixpoint mask_loop (svd_fun : nat -> mat -> triple F) (d2 : nat) (mask : mat) (iters call : nat) (M : mat) (t : triple F)
+  : mat * triple F :=
   match iters with
   | 0 => (M, t)
   | S it => let '(U, Sg, V) := t in
             let M' := impute d2 M mask U Sg V in
-            mask_loop svd_fun d2 mask it M' (svd_fun M')
+            mask_loop svd_fun d2 mask it (S call) M' (svd_fun call M')
   end.
 
-Definition svd_interface (svd_fun : mat -> triple F) (meth : method) (d2 : nat) (M : mat) (n : option nat)
+Definition svd_interface (svd_fun : nat -> mat -> triple F) (meth : method) (d2 : nat) (M : mat) (n : option nat)
     (flip_sign u_based : bool) (nn : option nntype) (mask : option mat) (iters : nat) (sq : F -> F) (eps : F)
   : res (triple F) :=
   match meth with
   | MUnknown => Err
   | _ =>
-    let t0 := svd_fun M in
+    let t0 := svd_fun 0 M in
     let '(M1, t1) := match mask, n with
-                     | Some msk, Some _ => mask_loop svd_fun d2 msk iters M t0
+                     | Some msk, Some _ => mask_loop svd_fun d2 msk iters 1 M t0
                      | _, _ => (M, t0) end in
     let '(U, Sg, V) := t1 in
     let '(U, V) := if flip_sign then svd_flip U V u_based else (U, V) in
